@@ -131,7 +131,7 @@ func Gen(cfg Config) func(t *rapid.T) Script {
 			m.Salt = i
 			kinds := []string{"image", "image", "index", "index", "opaque"}
 			if cfg.BadManifests {
-				kinds = append(kinds, "badjson", "wrongshape")
+				kinds = append(kinds, "badjson", "wrongshape", "opaquebin")
 			}
 			if i == 0 {
 				kinds = []string{"image", "opaque"}
@@ -168,6 +168,9 @@ func Gen(cfg Config) func(t *rapid.T) Script {
 				}
 				if cfg.BadManifests && rapid.IntRange(0, 11).Draw(t, "badDesc") == 0 {
 					m.BadDesc = rapid.IntRange(1, 3).Draw(t, "badDescKind")
+				}
+				if cfg.BadManifests && m.Kind == "index" && len(m.Children) > 0 && m.BadDesc == 0 && rapid.IntRange(0, 3).Draw(t, "lyingChildType") == 0 {
+					m.BadDesc = 4
 				}
 			}
 			if cfg.BigManifest > 0 && rapid.IntRange(0, 5).Draw(t, "big") == 0 {
